@@ -8,7 +8,8 @@ Driver for C12. Two kinds of input line:
   decoders): answers with the bytes of the Lean encoder for `val` and of three variants
   every conforming decoder must accept (fields in reverse order at every level, every varint
   padded to a non-minimal form, every singular message field split into two records that
-  have to be merged) in `model.variants`.
+  have to be merged, the records of different fields interleaved so that the elements of a
+  repeated field or map are not contiguous) in `model.variants`.
 * a case line `{"id","in":{msg,val,alloc_empty,stream,note},"obs":{…}}`: judged.
 
 agree = the Lean codec and the Go codecs compute the same thing on the same input:
@@ -183,6 +184,7 @@ structure VOpts where
   rev : Bool := false
   pad : Bool := false
   split : Bool := false
+  inter : Bool := false
 
 /-- a non-minimal varint: continuation bit on the last byte, then a zero byte -/
 def padVarint (n : Nat) : Bytes :=
@@ -201,31 +203,40 @@ def vLenDelim (o : VOpts) (num : Nat) (p : Bytes) : Bytes :=
 def halfOf (fs : List Field) (vs : List Val) (par : Nat) : List Val :=
   ((List.range vs.length).zip (fs.zip vs)).map fun (i, f, v) => if i % 2 = par then v else f.ty.default
 
+/-- one record from each field in turn, until all are used up -/
+partial def roundRobin (parts : List (List Bytes)) : List Bytes :=
+  let parts := parts.filter (· ≠ [])
+  if parts.isEmpty then [] else
+    parts.filterMap List.head? ++ roundRobin (parts.map List.tail)
+
 mutual
-partial def vField (S : Schema) (o : VOpts) (f : Field) (v : Val) : Bytes :=
+/-- the records of one field -/
+partial def vField (S : Schema) (o : VOpts) (f : Field) (v : Val) : List Bytes :=
   match f.ty, v with
-  | .scalar k, .int i => if i = 0 then [] else vVarint o (f.num * 8 + 0) ++ vVarint o (toU64 k i)
-  | .string, .str bs => if bs = [] then [] else vLenDelim o f.num bs
+  | .scalar k, .int i => if i = 0 then [] else [vVarint o (f.num * 8 + 0) ++ vVarint o (toU64 k i)]
+  | .string, .str bs => if bs = [] then [] else [vLenDelim o f.num bs]
   | .msg m, .msg fs =>
     if o.split then
-      vLenDelim o f.num (vFields S o (S.fieldsOf m) (halfOf (S.fieldsOf m) fs 0)) ++
-      vLenDelim o f.num (vFields S o (S.fieldsOf m) (halfOf (S.fieldsOf m) fs 1))
-    else vLenDelim o f.num (vFields S o (S.fieldsOf m) fs)
-  | .repString, .strs l => (l.map (vLenDelim o f.num)).flatten
+      [vLenDelim o f.num (vFields S o (S.fieldsOf m) (halfOf (S.fieldsOf m) fs 0)),
+       vLenDelim o f.num (vFields S o (S.fieldsOf m) (halfOf (S.fieldsOf m) fs 1))]
+    else [vLenDelim o f.num (vFields S o (S.fieldsOf m) fs)]
+  | .repString, .strs l => l.map (vLenDelim o f.num)
   | .repMsg m, .list l =>
-    (l.map fun e => match e with
+    l.map fun e => match e with
       | .msg fs => vLenDelim o f.num (vFields S o (S.fieldsOf m) fs)
-      | _ => vLenDelim o f.num []).flatten
+      | _ => vLenDelim o f.num []
   | .mapSS, .smap l =>
     let es := if o.rev then l.reverse else l
-    (es.map fun (k, v) =>
+    es.map fun (k, v) =>
       let kk := vLenDelim o 1 k
       let vv := vLenDelim o 2 v
-      vLenDelim o f.num (if o.rev then vv ++ kk else kk ++ vv)).flatten
+      vLenDelim o f.num (if o.rev then vv ++ kk else kk ++ vv)
   | _, _ => []
 partial def vFields (S : Schema) (o : VOpts) (fs : List Field) (vs : List Val) : Bytes :=
   let parts := (fs.zip vs).map fun (f, v) => vField S o f v
-  (if o.rev then parts.reverse else parts).flatten
+  if o.rev then parts.reverse.flatten.flatten
+  else if o.inter then (roundRobin parts).flatten
+  else parts.flatten.flatten
 end
 
 def variants (S : Schema) (m : Nat) (v : List Val) (wt : Bool) : List (String × Bytes) :=
@@ -234,7 +245,8 @@ def variants (S : Schema) (m : Nat) (v : List Val) (wt : Bool) : List (String ×
   [canon,
    ("reversed", vFields S { rev := true } (S.fieldsOf m) v),
    ("padded", vFields S { pad := true } (S.fieldsOf m) v),
-   ("split", vFields S { split := true } (S.fieldsOf m) v)]
+   ("split", vFields S { split := true } (S.fieldsOf m) v),
+   ("interleaved", vFields S { inter := true } (S.fieldsOf m) v)]
 
 /-! judging -/
 
@@ -437,7 +449,9 @@ def judgeCase (S : Schema) (inp obs : Json) : Except String Verdict := do
     else s!"nil-element-or-other-ill-typed: proto.Marshal={if pbErr == "" then "ok" else pbErr} MarshalVT={if vtErr == "" then "ok" else vtErr} roundtrip-equal pb={pb2pb.equal} vt={vt2vt.equal}"
   let cover := dedup ([s!"stream:{stream}", s!"msg:{name}", if excl then "domain:excluded" else "domain:in",
       s!"size-class:{if sz = 0 then "0" else if sz < 128 then "<128" else if sz < 16384 then "<16K" else ">=16K"}"]
-      ++ (if getBoolD inp "alloc_empty" then ["alloc-empty"] else []) ++ ftags)
+      ++ (if getBoolD inp "alloc_empty" then ["alloc-empty"] else [])
+      ++ (vs.filterMap fun (n, b) => if n != "canon" && b != enc then some s!"variant-differs:{n}" else none)
+      ++ ftags)
   let why :=
     match specFails, dis with
     | (_, w) :: _, _ => s!"{name} [{note}]: {w}"
